@@ -16,17 +16,26 @@ THEOREMS = [P + n for n in [
     "isurl_strip_invariant",
     "isurl_tld_sound",
     "isurl_total",
+    "isurl_total_concrete",
+    "isurl_tld_sound_concrete",
     "yield_total",
     "yield_substring_in_order",
     "yield_nonempty_no_ws",
     "yield_is_url",
     "yield_has_protocol",
+    "lang_proto",
+    "yield_has_scheme_or_relative",
     "fullmatch_iff_lang",
     "accepts_iff_pyMatch",
-]]
+]] + [
+    # the fuel of the finditer scanner (Py/Re.lean: 2*len+2) is never what ends the scan
+    "Ural.Py.Re.scan_fuel_sufficient",
+    "Ural.Py.Re.scan_chain",
+]
 TABLE_OBLIGATIONS = [P + n for n in [
     "shape_url_with_protocol",
     "shape_url",
+    "proto_shape",
     "shape_relaxed_url",
     "shape_relaxed_url_with_protocol",
     "shape_in_text",
@@ -61,9 +70,18 @@ TRUSTED = [
 ]
 ASSUMPTIONS = [
     "arguments are str (no bytes, no None); lone surrogates are outside the model",
-    "isurl_total assumes urlsplit raises nothing but ValueError (hypothesis of the theorem; the harness would report any other exception as a correspondence break)",
+    "isurl_total assumes urlsplit raises nothing but ValueError (hypothesis of the theorem; the harness would report any other exception as a correspondence break); isurl_total_concrete discharges it for the parser model (Py.urlsplit + hostname accessor)",
+    "Env.hostname is ONE exception channel for safe_urlsplit(string) AND .hostname (and has_valid_tld's second safe_urlsplit on the SplitResult), while in is_url.py only safe_urlsplit(string) is inside the try/except ValueError: the model treats a ValueError of any of them as caught; assumed harmless because CPython's SplitResult.hostname never raises (only .port does) and safe_urlsplit returns a SplitResult unchanged",
+    "Env.validTld is a total function Str -> Bool: is_valid_tld is assumed to raise nothing (its one fallible step, the idna codec, sits in try/except UnicodeError in attempt_to_decode_idna); an exception there would surface as a correspondence break, not in the theorems",
+    "'carries a protocol' is read as ural's patterns read it: the word '//' alone (scheme-relative) counts as a protocol, and scheme letters are [a-zA-Z] under re.I, which also admits U+0130, U+0131, U+017F, U+212A (yield_has_scheme_or_relative states exactly this)",
 ]
-UNPROVED = ""
+UNPROVED = (
+    "Nothing of the statement is left unproved for the model. Readings made explicit: 'each carries a protocol' = starts with '//' or with "
+    "1..64 scheme letters + '://' (yield_has_scheme_or_relative; urls_from_text('x //a.com y') yields '//a.com'; letters = ASCII letters and, through re.I, "
+    "the four characters U+0130 U+0131 U+017F U+212A). The finditer scanner Re.scan is fuel-bounded (2*len+2): scan_fuel_sufficient proves the bound is never "
+    "what ends the scan (any larger fuel gives the same matches), scan_chain that every reported match is a genuine one, in order; that it reports the SAME "
+    "matches as CPython's finditer (leftmost, backtracking priority) is validated differentially (finditer spans on every case), not proved."
+)
 
 # ---------------------------------------------------------------------------------------
 # streams
